@@ -11,6 +11,7 @@ import (
 	"syscall"
 
 	"github.com/ada-url/goada"
+	"github.com/internetarchive/Zeno/internal/pkg/utils"
 	"github.com/philippgille/gokv/leveldb"
 )
 
@@ -161,3 +162,18 @@ func RegexpMatchString(r *regexp.Regexp, s string) bool {
 	}
 	return false
 }
+
+// ---- exclusion files (config.readLocalExclusionFile): one pattern per line, as scripted by the harness ----
+
+var ExclusionFiles = map[string][]string{}
+
+func ReadLocalExclusionFile(file string) ([]string, error) {
+	lines, ok := ExclusionFiles[file]
+	if !ok {
+		return nil, errors.New("verifmodel: no such exclusion file")
+	}
+	return append([]string(nil), lines...), nil
+}
+
+// GetVersion models utils.GetVersion (build information of the running binary).
+func UtilsGetVersion() utils.Version { return utils.Version{Version: "verif", WarcVersion: "verif"} }
